@@ -1,6 +1,8 @@
 """C19 - utilities: hexdump lossless, colour cosmetic, pack/unpack/swap inverses."""
 from __future__ import annotations
 
+import enum
+
 import itertools
 import random
 import re
@@ -111,9 +113,43 @@ def run(tier, seed):
                     listed = re.findall(r"^- ([^:]+):", body, re.M)
                     ok = shown == raw and listed == names
                     obs = None if ok else f"hexdump shows {shown.hex()} for {raw.hex()}; fields listed {listed} vs {names}"
+                    # ... with its value: integers are listed in hex
+                    cur = T(raw) if form == "class+data" else v
+                    for f in T.__fields__:
+                        val = getattr(cur, f._name)
+                        if type(val).__mro__[-2] is int or (isinstance(val, int) and not isinstance(val, (enum.Enum,)) and type(val).__name__ != "Pointer" and not hasattr(val, "dereference")):
+                            m = re.search(rf"^- {re.escape(f._name)}: (.*)$", body, re.M)
+                            if not m or m.group(1).strip() != hex(val):
+                                ok, obs = False, f"field {f._name} listed as {m.group(1) if m else None!r}, value is {hex(val)}"
                 except Exception as e:  # noqa: BLE001
                     ok, obs = False, f"raises {type(e).__name__}: {e}"
                 d.case((p.key(), color, form), ok, observed=obs, inputs={"definition": p.text.split(chr(10))[-1], "color": color, "form": form})
+    # the listing follows the current values: parse, assign an integer field, dump again
+    for p in progs:
+        try:
+            cs = p.load(False)
+            T = cs.T
+            v = T(bytes((i * 29 + 7) % 251 for i in range(64)))
+        except Exception:  # noqa: BLE001
+            continue
+        if p.union or T.dynamic:
+            continue
+        for f in T.__fields__:
+            val = getattr(v, f._name)
+            if type(val).__name__ in ("int", ) or (isinstance(val, int) and not isinstance(val, enum.Enum) and not hasattr(val, "dereference") and not f.bits):
+                try:
+                    new = 1 if int(val) != 1 else 2
+                    setattr(v, f._name, type(val)(new) if type(val) is not int else new)
+                    out = ANSI.sub("", utils.dumpstruct(v, output="string"))
+                    body = out[out.index("struct "):]
+                    m = re.search(rf"^- {re.escape(f._name)}: (.*)$", body, re.M)
+                    shown = parse_dump(out.split("\n\n")[0].strip("\n"))[1]
+                    ok = bool(m) and m.group(1).strip() == hex(new) and shown == v.dumps()
+                    obs = None if ok else f"after {f._name} = {new}: listed {m.group(1) if m else None!r}; hexdump {shown.hex()} vs dumps {v.dumps().hex()}"
+                except Exception as e:  # noqa: BLE001
+                    ok, obs = False, f"raises {type(e).__name__}: {e}"
+                d.case((p.key(), "after-assignment", f._name), ok, observed=obs, inputs={"definition": p.text.split(chr(10))[-1], "assigned": f._name})
+                break
     d.add_to(rep)
     rep.extra["rule"] = "hexdump: data lengths x offsets x prefixes x palettes; dumpstruct: family F singles x colour x call form"
     rep.extra["explanation"] = (
